@@ -262,6 +262,12 @@ class Matcher:
             if not covers(want, got):
                 self.err(path, "value is not derived from exactly the expected input(s)", sp, expected=sorted(want), found=sorted(got))
                 return False
+            if not spec.get("loose"):
+                allowed = tuple(spec.get("via", [])) + BENIGN
+                bad = sorted(r for r in roots(v) if (r.startswith("call:") and not r[5:].endswith(allowed)) or r.startswith("op:"))
+                if bad:
+                    self.err(path, "value is transformed on its way from the parameter to the encoder (only accessors/adaptors are expected here)", sp, expected="%s written as is" % sorted(want), found=bad)
+                    return False
             if spec.get("via"):
                 calls = calls_of(v)
                 missing = [c for c in spec["via"] if not any(x.endswith(c) for x in calls)]
@@ -545,6 +551,14 @@ class Matcher:
             good = False
         if good:
             self.ok(p)
+
+
+# accessors / adaptors that hand a parameter's own content to the encoder unchanged
+BENIGN = (
+    "ObjectIdentifier::from_slice", "DistinguishedName::iter", "::as_str", "::as_bytes", "::as_ref", "::as_slice", "PublicKeyData::algorithm",
+    "PublicKeyData::der_bytes", "::octets", "CustomExtension::content", "::to_vec", "::clone", "::iter", "::into_iter", "::deref", "::borrow",
+    "::to_owned", "::into", "::content", "::contents",
+)
 
 
 def under(p, e):
